@@ -19,6 +19,7 @@ import (
 	banktypes "github.com/cosmos/cosmos-sdk/x/bank/types"
 	"github.com/ethereum/go-ethereum/common"
 
+	"github.com/functionx/fx-core/v8/contract"
 	fxtypes "github.com/functionx/fx-core/v8/types"
 	crosschainkeeper "github.com/functionx/fx-core/v8/x/crosschain/keeper"
 	crosschainprecompile "github.com/functionx/fx-core/v8/x/crosschain/precompile"
@@ -92,6 +93,7 @@ type Snap struct {
 	Ext, Fx  uint64
 	Bals     []*big.Int
 	Events   [][2]int64
+	Relation []uint64 // transfer ids with an erc20 outgoing relation for this module, descending
 	FxHeight int64
 	Problems []string // store-level inconsistencies seen while decoding (monitor input)
 }
@@ -193,6 +195,12 @@ func NewWorld(seed int64, prm [4]uint64, moduleFloat int64) *World {
 		c.Mint(u.Acc(), sdk.NewCoin("usdc", sdkmath.NewInt(5000)), sdk.NewCoin(w.toks[3].Bridge, sdkmath.NewInt(300)))
 		_, cerr := c.App.Erc20Keeper.ConvertCoin(ctx, &erc20types.MsgConvertCoin{Coin: sdk.NewCoin("usdc", sdkmath.NewInt(1000)), Receiver: u.Hex().String(), Sender: u.Acc().String()})
 		lib.Must(cerr)
+		// the crossChain precompile pulls ERC-20 tokens with transferFrom: standing approval
+		approve, aerr := contract.GetFIP20().ABI.Pack("approve", lib.CrosschainPrecompile, new(big.Int).Lsh(big.NewInt(1), 200))
+		lib.Must(aerr)
+		if r := c.EvmCall(ctx, u.Hex(), &w.coinErc20, nil, 500_000, approve); r.Err != nil || r.Failed {
+			panic(fmt.Sprintf("approve failed: %v %s", r.Err, r.VmError))
+		}
 	}
 	if moduleFloat > 0 {
 		for t := 1; t <= 3; t++ {
@@ -307,6 +315,34 @@ func (w *World) apply(op Op) (accepted bool) {
 			}
 			_, err := ms.SendToExternal(ctx, m)
 			return err
+		})
+	case "SendP":
+		// the REAL crossChain precompile: FX as msg.value (token = zero address) or ERC-20 tokens of the registered coin
+		args := crosschaintypes.CrossChainArgs{Receipt: w.exts[op.Dest], Amount: big.NewInt(op.Amount), Fee: big.NewInt(op.Fee),
+			Target: fxtypes.MustStrToByte32(chainName), Memo: ""}
+		value := big.NewInt(0)
+		if op.Token == 0 {
+			value = big.NewInt(op.Amount + op.Fee)
+		} else {
+			args.Token = w.coinErc20
+		}
+		return w.tryMsg(func(ctx sdk.Context) error {
+			if err := args.Validate(); err != nil {
+				return err
+			}
+			data, err := crosschainprecompile.NewCrossChainMethod(nil).PackInput(args)
+			if err != nil {
+				return err
+			}
+			pre := lib.CrosschainPrecompile
+			r := w.c.EvmCall(ctx, w.users[op.Sender].Hex(), &pre, value, 5_000_000, data)
+			if r.Err != nil {
+				return r.Err
+			}
+			if r.Failed {
+				return fmt.Errorf("evm: %s", r.VmError)
+			}
+			return nil
 		})
 	case "Cancel":
 		m := &crosschaintypes.MsgCancelSendToExternal{ChainName: chainName, TransactionId: op.ID, Sender: w.users[op.Who].Acc().String()}
@@ -591,5 +627,10 @@ func (w *World) snapshot() Snap {
 	oh := w.x.Keeper.GetLastObservedBlockHeight(ctx)
 	s.Ext, s.Fx = oh.ExternalBlockHeight, oh.BlockHeight
 	s.Bals = w.balances()
+	for id := uint64(400); id >= 1; id-- {
+		if c.App.Erc20Keeper.HasOutgoingTransferRelation(ctx, chainName, id) {
+			s.Relation = append(s.Relation, id)
+		}
+	}
 	return s
 }
